@@ -149,6 +149,9 @@ void lemma_handleMessage(void)
                    "[lemma.the_senders_own_key_is_looked_up] trustLevel(encryption of the element, bare JID of the sender, sender key of the e2ee metadata)");
   /* the trust level of the sender's key arrives */
   int stl = nondet_int();
+  __CPROVER_assume(gh_sender_tl == stl);
+  /* (a variant of handleMessage that asks hasKey instead: the yes/no answer about the sender's ACCOUNT) */
+  bool hk = nondet_bool(); __CPROVER_assume(HASKEY_ANSWER(hk, R_Atm_handleMessage_k0.encryption, R_Atm_handleMessage_k0.senderJid, stl));
   RUN_Atm_handleMessage_k0
   int pp1 = pp;
   RUN_Atm_handleMessage_k0_0
